@@ -65,12 +65,12 @@ RunPath(r, p, d, o) ==
         \* ProcessProposal(b): reuse an executed proposal iff it is equal, else execute and cache
         Proc(c, b) == IF c # <<>> /\ c.blk = b /\ c.base = canon[r] THEN [c EXCEPT !.hash = b]
                       ELSE [hash |-> b, blk |-> b, base |-> canon[r]]
-        c1 == CASE p = "propose" -> Proc([hash |-> "", blk |-> d, base |-> canon[r]], d)
+        c1 == CASE p = "propose" -> Proc([hash |-> <<>>, blk |-> d, base |-> canon[r]], d)
                 [] p \in {"process", "restart_process"} -> Proc(c0, d)
                 [] p = "other_then_process" -> Proc(Proc(c0, o), d)
                 [] p = "other_then_begin" -> Proc(c0, o)
-                [] p = "prepared_then_process" -> Proc([hash |-> "", blk |-> o, base |-> canon[r]], d)
-                [] p = "prepared_then_begin" -> [hash |-> "", blk |-> o, base |-> canon[r]]
+                [] p = "prepared_then_process" -> Proc([hash |-> <<>>, blk |-> o, base |-> canon[r]], d)
+                [] p = "prepared_then_begin" -> [hash |-> <<>>, blk |-> o, base |-> canon[r]]
                 [] OTHER -> c0
         \* BeginBlock(hash d): resetProposalIfChanged - cached results are used iff the cache is for this hash
         res == IF c1 # <<>> /\ c1.hash = d THEN Exec(c1.base, c1.blk) ELSE Exec(canon[r], d)
